@@ -31,18 +31,23 @@ Record column := mkcol {
   cmerges : bool;                        (* does Apply handle Merge (numeric, string, record) *)
   cmrg : value -> value -> value;        (* merge function: stored value, delta -> new value *)
   czero : value;                         (* what a merge onto an absent cell starts from *)
+  ccast : value -> value;                (* how Apply reads a put value: the identity, except for the
+                                            int / uint columns, whose Reader.Int / Reader.Uint widen a
+                                            2- or 4-byte entry (written through SetAny / SetMany) *)
   cells : gmap N value                   (* offset -> stored value; absent = no value *)
 }.
 
 Definition set_cells (c : column) (m : gmap N value) : column :=
-  mkcol (cmerges c) (cmrg c) (czero c) m.
+  mkcol (cmerges c) (cmrg c) (czero c) (ccast c) m.
 
-(* one op on one cell: the reading a user has *)
+(* one op on one cell: the reading a user has.  [cast] is applied to whatever is stored; a merge
+   result is already of the column's width (Reader.Swap* writes it at that width), so the cast
+   only matters for puts *)
 Definition cell_step (mrg : value -> value -> value) (zero : value) (merges : bool)
-    (v : option value) (o : op) : option value :=
+    (cast : value -> value) (v : option value) (o : op) : option value :=
   match ok o with
-  | KPut => Some (oval o)
-  | KMerge => if merges then Some (mrg (default zero v) (oval o)) else v
+  | KPut => Some (cast (oval o))
+  | KMerge => if merges then Some (cast (mrg (default zero v) (oval o))) else v
   | KDelete => None
   | _ => v
   end.
@@ -58,7 +63,7 @@ Definition rewrite_op (mrg : value -> value -> value) (zero : value) (merges : b
 
 Definition col_step (c : column) (o : op) : column * op :=
   let old := cells c !! ooff o in
-  (set_cells c (match cell_step (cmrg c) (czero c) (cmerges c) old o with
+  (set_cells c (match cell_step (cmrg c) (czero c) (cmerges c) (ccast c) old o with
                 | Some v => <[ooff o := v]> (cells c)
                 | None => delete (ooff o) (cells c) end),
    rewrite_op (cmrg c) (czero c) (cmerges c) old o).
